@@ -142,7 +142,7 @@ def gen_config(ch, max_nodes=220, allow_thin=True):
     cfg["naxis"] = ch.pick("naxis", (2, 2, 2, 3, 4))
     cfg["nplanes"] = 1 + ch.draw("nplanes", 3) if cfg["naxis"] > 2 else 1
     cfg["cube_index"] = ch.draw("cube_index", cfg["nplanes"])
-    cfg["bitpix"] = ch.pick("bitpix", (-64, -32))
+    cfg["bitpix"] = ch.pick("bitpix", (-64, -32, -32, -64, 32, -32, 16))     # integer BITPIX: see gen_content
     # BSCALE keyword: the file stores physical/BSCALE (exact: powers of two); None = keyword absent
     cfg["bscale"] = ch.pick("bscale", (None, None, None, None, 2.0, None, -2.0, 0.5, 1.0, -1.0))
     return cfg
@@ -160,6 +160,15 @@ def gen_content(ch, cfg):
     c["blank"] = ("none", "pixels", "block", "row", "col")[nb]
     c["blank_inf"] = bool(ch.draw("blank_inf", 2)) if nb else False
     c["blank_seed"] = ch.draw("blank_seed", 1 << 16) if nb else 0
+    if cfg["bitpix"] > 0:
+        # integer pixels: the file stores physical / BSCALE with BSCALE = one quantum of the dyadic grid, so the stored
+        # values are whole numbers; integer images cannot hold NaN/inf
+        cfg["bscale"] = 2.0 ** (c["sigma_pow"] - 8)
+        c["blank"], c["blank_inf"] = "none", False
+        if cfg["bitpix"] == 16 and c["offset_pow"] is not None and c["offset_pow"] - c["sigma_pow"] + 8 > 13:
+            c["offset_pow"] = c["sigma_pow"] + 4       # keep |stored| < 2^15
+        if cfg["bitpix"] == 16 and c["kind"] == "sources":
+            cfg["bitpix"] = 32                         # bright sources do not fit into 16 bits at this quantum
     return c
 
 
@@ -208,10 +217,14 @@ def make_image(cfg, content, shift=0.0, scale=1.0):
     return img
 
 
+def file_dtype(cfg):
+    return {-32: np.float32, -64: np.float64, 16: np.int16, 32: np.int32}[cfg["bitpix"]]
+
+
 def write_image(path, cfg, img):
     """``img`` holds the physical pixel values; with a BSCALE keyword the file stores img / BSCALE."""
     fits = _state["fits"]
-    dtype = np.float32 if cfg["bitpix"] == -32 else np.float64
+    dtype = file_dtype(cfg)
     bscale = cfg.get("bscale")
     data = (img / bscale if bscale else img).astype(dtype)
     if cfg["naxis"] == 3:
